@@ -846,6 +846,32 @@ func c15(w *core.World, r *core.Report) {
 						}
 					}
 				}
+				// the message is produced by a callback the helper is handed (msg func() *Response): what the closure
+				// passed at this site returns
+				if pc, ok := o.(*ssa.Call); ok && !pc.Call.IsInvoke() && pc.Call.StaticCallee() == nil {
+					if p, ok := pc.Call.Value.(*ssa.Parameter); ok && p.Parent() == h {
+						for i, q := range h.Params {
+							if q != p || i >= len(site.Call.Args) {
+								continue
+							}
+							var cb *ssa.Function
+							switch x := site.Call.Args[i].(type) {
+							case *ssa.MakeClosure:
+								cb, _ = x.Fn.(*ssa.Function)
+							case *ssa.Function:
+								cb = x
+							}
+							if cb == nil || cb.Blocks == nil {
+								continue
+							}
+							for _, ret := range core.Returns(cb) {
+								if len(ret.Results) == 1 {
+									res = ret.Results[0]
+								}
+							}
+						}
+					}
+				}
 			}
 		})
 		return res
